@@ -4,6 +4,7 @@ import (
 	"go/constant"
 	"go/token"
 	"go/types"
+	"os"
 	"strings"
 
 	"golang.org/x/tools/go/ssa"
@@ -120,6 +121,20 @@ func evalIn(v ssa.Value, x *ssa.BasicBlock, i int) tri {
 		}
 		return r
 	}
+	// a boolean value already tested on the way into x through this
+	// predecessor
+	if isBoolType(v.Type()) {
+		p := x.Preds[i]
+		for _, f := range append(factsAt(p), factsOnEdge(p, x)...) {
+			fv, ft := normCond(f.Cond, f.Truth)
+			if fv == v {
+				if ft {
+					return triTrue
+				}
+				return triFalse
+			}
+		}
+	}
 	return triUnknown
 }
 
@@ -180,6 +195,13 @@ func threadBlock(f *ssa.Function, x *ssa.BasicBlock) bool {
 	for _, p := range x.Preds {
 		if _, n := predIndex(x, p); n != 1 || p == x {
 			return false
+		}
+	}
+	if os.Getenv("SIZERCHECK_NOLOOPTHREAD") != "" {
+		for _, p := range x.Preds {
+			if x.Dominates(p) {
+				return false // a loop header
+			}
 		}
 	}
 	dec := make([]tri, len(x.Preds))
@@ -320,16 +342,19 @@ func threadBlock(f *ssa.Function, x *ssa.BasicBlock) bool {
 	}
 	var rands []*ssa.Value
 	for _, b := range f.Blocks {
-		if b == x {
-			continue
-		}
 		for _, in := range b.Instrs {
 			if rp, ok := in.(*ssa.Phi); ok {
+				// (also the phis of x itself: a value of x carried around a loop
+				// is a use at the end of the back-edge predecessor, which x no
+				// longer dominates once the entry edge bypasses it)
 				for k := range rp.Edges {
 					if phi := isXPhi[rp.Edges[k]]; phi != nil {
 						uses[phi] = append(uses[phi], use{in, &rp.Edges[k], b.Preds[k]})
 					}
 				}
+				continue
+			}
+			if b == x {
 				continue
 			}
 			rands = in.Operands(rands[:0])
@@ -1148,6 +1173,12 @@ func mergeCopiedLocals(f *ssa.Function) bool {
 // threadOnly applies jump threading (and the clean-up it needs) to a
 // function that was not otherwise rewritten.
 func threadOnly(f *ssa.Function) {
+	if skipNormalize[rootFn(f).String()] {
+		return
+	}
+	if inj := os.Getenv("SIZERCHECK_FAILNORM"); inj != "" && strings.Contains(f.String(), inj) {
+		panic(normFailure{rootFn(f).String(), "injected failure (self-test of the fallback)"})
+	}
 	canonCompare(f)
 	did := foldDecided(f, decidedCond)
 	for dupResultReturns(f) {
@@ -1168,7 +1199,7 @@ func threadOnly(f *ssa.Function) {
 	if did {
 		simplifyCFG(f)
 		if errs := sanity(f); len(errs) > 0 {
-			panic("jump threading produced malformed SSA: " + errs[0])
+			panic(normFailure{rootFn(f).String(), "jump threading produced malformed SSA: " + errs[0]})
 		}
 	}
 }
